@@ -98,6 +98,31 @@ Theorem C20_time_grammar : forall t,
 Proof. exact (fun t => conj (valid_time_iff t) (fun n => denotes_time_secs t n)). Qed.
 Print Assumptions C20_time_grammar.
 
+(* NestedPipeFunc (_maybe_max_resources without an explicit argument): None iff no child has resources, otherwise
+   a valid value at least as large as every child's resources; the children are untouched *)
+Theorem C20_nested_resources_upper_bound : forall ch, Forall valid_res (somes ch) ->
+  match fst (fst (maybe_max_resources ENone ch)) with
+  | None => somes ch = []
+  | Some x => exists res, x = Ok res /\ valid_res res /\ forall c, In c (somes ch) -> dominates res c
+  end
+  /\ snd (fst (maybe_max_resources ENone ch)) = ch.
+Proof. exact maybe_max_upper_bound. Qed.
+Print Assumptions C20_nested_resources_upper_bound.
+
+(* Python's == on the round-tripped value (dict equality ignores order; extra_args is a dict: unique keys) *)
+Theorem C20_dict_roundtrip_eq : forall r, valid_res r -> nodup_keys (extra_args r) = true ->
+  exists x, from_dict (to_dict r) = Ok x /\ res_eqb x r = true.
+Proof. exact (fun r Hv Hn => ex_intro _ r (conj (dict_roundtrip r Hv) (res_eqb_refl r Hn))). Qed.
+Print Assumptions C20_dict_roundtrip_eq.
+
+(* An observation OUTSIDE the property text (it lists cpus, gpus, memory, wall time): combine_max does not carry
+   nodes / cpus_per_node into its result, so for these two fields the result is not an upper bound. *)
+Theorem C20_combine_max_drops_nodes :
+  exists r, valid_res r /\ nodes r = Some 2%Z /\ cpus_per_node r = Some 4%Z
+            /\ exists res, fst (combine_max [r; r]) = Ok res /\ nodes res = None /\ cpus_per_node res = None.
+Proof. exact combine_max_drops_nodes. Qed.
+Print Assumptions C20_combine_max_drops_nodes.
+
 (* ---- the executable statement used by the correspondence check ----
    spec_ok (Corr/Run_C20.v) is what the engine evaluates on the observations of the real implementation.
    It holds of the model's own observation for every case (all constructor arguments, operand lists, keyword
